@@ -10,15 +10,15 @@ import Std.Data.HashSet
 namespace Drv
 open IterFull Iter2M
 
-def showVec (v : List Nat) : String := "[" ++ showNats "," v ++ "]"
-def showVecs (vs : List (List Nat)) : String := if vs.isEmpty then "none" else joinWith "|" (vs.map showVec)
+def showHVec (v : List Nat) : String := "[" ++ showNats "," v ++ "]"
+def showHVecs (vs : List (List Nat)) : String := if vs.isEmpty then "none" else joinWith "|" (vs.map showHVec)
 
 /-- the property oracle on a list of yielded vectors: size, no duplicates, every element
 satisfies the predicate; `first` only where the property speaks about it -/
 def iterSpecLine (out : List (List Nat)) (expected : Nat) (ok : List Nat → Bool) (first : Bool) : String :=
   let nd := (out.foldl (fun (h : Std.HashSet (List Nat)) v => h.insert v) {}).size == out.length
   let comp := out.length == expected && out.all ok
-  s!"count={out.length} nodup={boolBit nd} complete={boolBit comp} first={if first then (out.head?.map showVec).getD "none" else "-"}"
+  s!"count={out.length} nodup={boolBit nd} complete={boolBit comp} first={if first then (out.head?.map showHVec).getD "none" else "-"}"
 
 def iterStep (l : String) (ws : List String) : Option (List String) :=
   match ws with
@@ -26,14 +26,14 @@ def iterStep (l : String) (ws : List String) : Option (List String) :=
     match vs.mapM (fun w => w.toNat?) with
     | some v =>
       let ref := enum2 (und v) (start2 v)
-      some [l, "= " ++ showVecs (twoValAll v),
+      some [l, "= " ++ showHVecs (twoValAll v),
             "~ " ++ iterSpecLine ref (2 ^ nUnd v) (fun w => decide (isCompletion w v)) false]
     | none => some [l, "= bad-request", "~ bad-request"]
   | "it3" :: vs =>
     match vs.mapM (fun w => w.toNat?) with
     | some v =>
       let ref := enum3 (und v) v
-      some [l, "= " ++ showVecs (threeValAll v),
+      some [l, "= " ++ showHVecs (threeValAll v),
             "~ " ++ iterSpecLine ref (3 ^ nUnd v) (fun w => decide (isRefinement w v)) true]
     | none => some [l, "= bad-request", "~ bad-request"]
   | _ => none
